@@ -501,7 +501,9 @@ func C13(c *ev.Ctx) {
 				go func(g int) {
 					defer wg.Done()
 					<-start
-					if catchPanic(func() { fsys.AtomicCreate("d", fmt.Sprintf("t%d%s", i, exts[g]), acData(byte('a'+g), 30+(i*7+g*131)%5000)) }) {
+					if catchPanic(func() {
+						fsys.AtomicCreate("d", fmt.Sprintf("t%d%s", i, exts[g]), acData(byte('a'+g), 30+(i*7+g*131)%5000))
+					}) {
 						mu.Lock()
 						panics++
 						mu.Unlock()
